@@ -50,7 +50,7 @@ All == Core \cup Frag \cup
         "break-all", "ovf-hidden", "transform", "zero-size", "contents", "unknown-prop", "bad-at-rule", "bad-selector", "bad-important", "target",
         "anchor", "link", "input", "textarea", "select", "br", "hr", "first-letter", "text-decor", "valign", "spacing", "percent", "neg-margin", "clone",
         "decor", "border-image", "line-clamp", "object-fit", "unknown-elem", "details", "sticky", "big-font", "zero-font", "lh-huge", "min-content",
-        "fit-content", "clear", "fontface", "counter-style", "counter-additive", "counter-systems", "counter-symbols", "grid-spans", "grid-spans-sparse", "svg-cycles", "columns-fractional", "svg-img-ref", "media", "nested-rule", "attr-hints", "font-hints", "center", "base",
+        "fit-content", "clear", "fontface", "counter-style", "counter-additive", "counter-systems", "counter-symbols", "grid-spans", "grid-spans-sparse", "svg-cycles", "columns-fractional", "tab-size-ch", "leader-tiny", "svg-img-ref", "media", "nested-rule", "attr-hints", "font-hints", "center", "base",
         "meta-link", "style-attr", "osc-pages", "pages-text", "full-table-coll", "full-table-sep", "full-list", "full-flex", "full-grid",
         "full-columns", "long-text", "footnotes-many", "var-lasso", "floats-many", "abs-in-rel", "calc-nested", "attr-typed", "full-table-head"}
 Bundles == CASE Set = "core" -> Core [] Set = "frag" -> Frag [] OTHER -> All
